@@ -75,7 +75,11 @@ def history_oracle(schema, cfg, history, probe):
             in_force = call[3]          # a per-call schema replaces the validator's schema, as documented
         elif call[3] is not None and out == ("declared", "DocumentError"):
             in_force = call[3]
-    fresh = pool.PoolValidator(copy.deepcopy(in_force), **copy.deepcopy(cfg))
+    if probe[3] is not None:
+        # the probe brings its own schema: the reference is a validator that never held one
+        fresh = pool.PoolValidator(**copy.deepcopy(cfg))
+    else:
+        fresh = pool.PoolValidator(copy.deepcopy(in_force), **copy.deepcopy(cfg))
     a, b = do_call(used, probe), do_call(fresh, probe)
     if a[0] == "raise" or b[0] == "raise":
         return None, "skip"
